@@ -98,6 +98,9 @@ pub fn gen(ctx: &Ctx, rng: &mut Rng, out: &mut Vec<String>) {
                 if inner > 0.0 { let c = 256.0 / inner; for x in data[1..n - 1].iter_mut() { *x = (*x * c).round() / 256.0; } let s2: f64 = data[1..n - 1].iter().sum(); data[1] += 1.0 - s2; data[0] = 0.5; data[n - 1] = 0.25; }
             }
             7 => { for x in data.iter_mut() { *x = 0.0; } data[0] = 3.0; data[n - 1] = 1.0; }
+            // monomorphic cells that dwarf everything else (2^53, 1e18, 1e300) next to small interior counts: masking then normalising
+            // must give the interior fractions, whatever the grand total was
+            1 | 6 if n > 2 => { let big = [9007199254740992.0f64, 1e18, 1e300, 4503599627370496.0][si % 4]; data[0] = big; data[n - 1] = if si % 3 == 0 { big } else { 7.0 }; for x in data[1..n - 1].iter_mut() { *x = (*x).min(9.0); } if data[1..n - 1].iter().all(|x| *x == 0.0) { data[1] = 1.0; } }
             _ => {}
         }
         for subset in 0u32..16 {
